@@ -1,6 +1,15 @@
 """translators: /repo source -> coq/Gen/*.v (fail closed)"""
-from . import gen_path
+from . import gen_path, gen_style
+from . import gen_tables
+from . import gen_shape
+from . import gen_const
+from . import gen_units
 
 GENERATORS = {
     "GenPath": gen_path.generate,
+    "GenStyle": gen_style.generate,
+    "GenTables": gen_tables.generate,
+    "GenShape": gen_shape.generate,
+    "GenConst": gen_const.generate,
+    "GenUnits": gen_units.generate,
 }
